@@ -3,7 +3,7 @@
 //   [@tag] <case tokens> => <implementation result tokens>
 // for the extracted Coq model / monitors (build/<suite>/driver) to judge.
 // Every random choice derives from one PRNG seeded by -seed.
-package main
+package hlib
 
 import (
 	"bufio"
@@ -13,7 +13,6 @@ import (
 	"fmt"
 	"math/rand"
 	"os"
-	"sort"
 	"strings"
 )
 
@@ -69,10 +68,6 @@ func B(b bool) string {
 	return "0"
 }
 
-var suites = map[string]func(*Ctx) error{}
-
-func register(name string, f func(*Ctx) error) { suites[name] = f }
-
 // ReplayLines returns the case lines (left of "=>") of a replay/obs file.
 func (c *Ctx) ReplayLines() [][]string {
 	data, err := os.ReadFile(c.Replay)
@@ -99,24 +94,14 @@ func (c *Ctx) ReplayLines() [][]string {
 	return out
 }
 
-func main() {
-	suite := flag.String("suite", "", "suite name")
+// Main is the entry point of a suite binary.
+func Main(name string, f func(*Ctx) error) {
 	seed := flag.Int64("seed", 1, "PRNG seed")
-	tier := flag.String("tier", "quick", "quick|thorough|search")
+	tier := flag.String("tier", "quick", "quick|thorough")
 	outp := flag.String("out", "", "observation file")
 	stats := flag.String("stats", "", "stats json file")
 	replay := flag.String("replay", "", "replay file: re-run exactly these cases")
 	flag.Parse()
-	f, ok := suites[*suite]
-	if !ok {
-		var names []string
-		for n := range suites {
-			names = append(names, n)
-		}
-		sort.Strings(names)
-		fmt.Fprintln(os.Stderr, "unknown suite; have:", names)
-		os.Exit(2)
-	}
 	of, err := os.Create(*outp)
 	if err != nil {
 		fmt.Fprintln(os.Stderr, err)
@@ -125,6 +110,7 @@ func main() {
 	ctx := &Ctx{Seed: *seed, Tier: *tier, Rng: rand.New(rand.NewSource(*seed)), out: bufio.NewWriterSize(of, 1<<20),
 		distinct: map[string]struct{}{}, Dist: map[string]int{}, Replay: *replay}
 	if err := f(ctx); err != nil {
+		ctx.out.Flush()
 		fmt.Fprintln(os.Stderr, "suite error:", err)
 		os.Exit(3)
 	}
@@ -132,7 +118,7 @@ func main() {
 	of.Close()
 	if *stats != "" {
 		js, _ := json.MarshalIndent(map[string]interface{}{
-			"suite": *suite, "seed": *seed, "tier": *tier, "evaluations": ctx.Evals,
+			"suite": name, "seed": *seed, "tier": *tier, "evaluations": ctx.Evals,
 			"distinct_nontrivial": len(ctx.distinct), "rule": ctx.Rule, "distribution": ctx.Dist, "samples": ctx.Samples,
 		}, "", " ")
 		os.WriteFile(*stats, js, 0o644)
